@@ -499,7 +499,7 @@ def emitter_matchers():
         return isinstance(d, dict) and opt_bits(d) & 4 and _tree_has(d["tree"], lambda v: v["t"] in ("Seq", "Map", "Struct", "Tup") and not v["xs"])
 
     def complex_key_indent4(rec, d):
-        if not (isinstance(d, dict) and opt_bits(d) & 1):
+        if not (isinstance(d, dict) and (opt_bits(d) & 1 or d.get("opt", "").startswith("i"))):      # indent_step other than 2
             return False
         def has(v):
             if v["t"] == "Map":
@@ -534,7 +534,9 @@ def emitter_matchers():
         def has(v):
             return v["t"] == "Fold" and ("\n" in v["s"].rstrip("\n") or v["s"].endswith("\n\n"))
         return isinstance(d, dict) and d.get("verdict") in ("value-changed", "layout-changed-data") and _tree_has(d["tree"], has)
-    return {"C20-foldstr-folds-line-breaks": foldstr_folds, "C20-empty-litstr-in-option": empty_lit_in_option, "C13-empty-as-braces-off": empty_braces_off, "C13-complex-key-value-map-indent4": complex_key_indent4,
+    def indent_step_1(rec, d):
+        return isinstance(d, dict) and d.get("opt", "") in ("i1", "i1c")
+    return {"C13-indent-step-1": indent_step_1, "C20-indent-step-1": indent_step_1, "C20-foldstr-folds-line-breaks": foldstr_folds, "C20-empty-litstr-in-option": empty_lit_in_option, "C13-empty-as-braces-off": empty_braces_off, "C13-complex-key-value-map-indent4": complex_key_indent4,
             "C20-empty-as-braces-off": empty_braces_off, "C20-complex-key-value-map-indent4": complex_key_indent4,
             "C20-flowmap-complex-key": flowmap_complex_key, "C20-variant-inside-flow": variant_inside_flow}
 
@@ -613,7 +615,7 @@ def check_C15(ctx):
     run_mc(ctx, "MC_AnchorStore", dict(MaxAllocs=1, MaxFields=0, ScopeSaves=True, MaxCalls=3 if q else 4), ["InvCleanAtBoundary"],
            properties=["NestedTransparent"], workers=4, timeout=3000, label="MC_AnchorStore_histories")
     cases = ctx.path("cases.ndjson")
-    run_mc(ctx, "MC_Histories", dict(MaxLen=3 if q else 4, NCalls=14), ["EmitCase"], workers=4, timeout=3000, cases_out=cases, label="MC_Histories")
+    run_mc(ctx, "MC_Histories", dict(MaxLen=3 if q else 4, NCalls=15), ["EmitCase"], workers=4, timeout=3000, cases_out=cases, label="MC_Histories")
     ctx.exhaustive = True
     recs = ctx.path("recs.ndjson")
     st = run_vh(ctx, ["c15", "--cases", cases, "--out", recs, "--random", 300 if q else 20000, "--seed", ctx.seed])
@@ -624,7 +626,7 @@ def check_C15(ctx):
     classify_mismatches(ctx, [(m[0], {"verdict": m[1]["verdict"], "rec": m[1]["rec"]}, m[2], m[3]) for m in mism], None, {},
                         "a call's result differs from the same call on a fresh thread, or thread-local state leaked / a nested call was not transparent")
     return finish(ctx, "model_checking",
-                  "histories: every sequence of <= 3/4 calls over 14 call kinds (ok with sharing, failure inside an anchored node, missing "
+                  "histories: every sequence of <= 3/4 calls over 15 call kinds (ok with sharing, failure inside an anchored node, missing "
                   "field, budget breach, panicking visitor, parse nested in a user Deserialize impl at top level (outer anchors held by Rc, Arc, RcRecursive, ArcRecursive wrappers) and inside an anchored "
                   "node, abandoned iterator, serialization with shared pointers, unknown alias, weak reference) enumerated by TLC and run "
                   "on one thread, plus random histories of 4-15 calls; each call's fingerprint is compared with the same call on a fresh "
